@@ -13,16 +13,22 @@ struct StatusOp
     uint16_t dev{0};
     uint32_t iface{0};
     uint8_t viaDecoder{0};
+    uint8_t content{0};  // 0: the payload content is derived from the op's position (every update differs); 1..3: one of three fixed
+                         // contents per (device, interface) - an idle interface reports the same payload again, only header fields differ
     void io(Ar& a)
     {
         a.num("kind", kind);
         a.num("dev", dev);
         a.num("iface", iface);
         a.num("viaDecoder", viaDecoder);
+        a.optionalNum("content", content);
     }
 };
-inline lib::Packet makeStatusUpdate(const StatusOp& op, size_t index)
+inline lib::Packet makeStatusUpdate(const StatusOp& op, size_t position)
 {
+    // payload content: position-derived or one of the fixed variants; header fields (version, vendor id, flags, timestamp) always
+    // follow the position, so two updates with the same payload still differ as packets
+    const size_t index = op.content ? 100000 + op.content : position;
     lib::Packet p;
     uint8_t msgType = wire::kMtStatus;
     Bytes raw;
@@ -73,21 +79,27 @@ inline lib::Packet makeStatusUpdate(const StatusOp& op, size_t index)
         ptype = wire::kPtCan;
         msgType = wire::kMtData;
     }
+    const uint8_t version = static_cast<uint8_t>(1 + position % 3);
+    const uint8_t flags = static_cast<uint8_t>((position * 5) & 0x33);
     p.setDeviceId(op.dev);
-    p.setStreamId(3);
-    p.setTimestamp(index);
-    p.setVendorId(static_cast<uint16_t>(index));
+    p.setStreamId(static_cast<uint8_t>(3 + position % 2));
+    p.setTimestamp(position);
+    p.setVendorId(static_cast<uint16_t>(position));
+    p.setVersion(version);
+    p.setCommonFlags(flags);
+    p.setSequenceCounter(static_cast<uint16_t>(position * 3));
     if (msgType == wire::kMtData)
         p.setInterfaceId(op.iface);
     if (op.viaDecoder && msgType != 0 && ptype != 0)
     {
         // the real use: packets come out of the decoder
         Bytes frame;
-        wire::CmpHdr h{1, 0, op.dev, msgType, 3, static_cast<uint16_t>(index)};
+        wire::CmpHdr h{version, 0, op.dev, msgType, static_cast<uint8_t>(3 + position % 2), static_cast<uint16_t>(position * 3)};
         wire::putCmpHdr(frame, h);
         wire::MsgHdr mh;
-        mh.timestamp = index;
-        mh.idWord = msgType == wire::kMtData ? op.iface : static_cast<uint32_t>(index & 0xFFFF);
+        mh.timestamp = position;
+        mh.flags = flags;
+        mh.idWord = msgType == wire::kMtData ? op.iface : static_cast<uint32_t>(position & 0xFFFF);
         mh.payloadType = ptype;
         mh.length = static_cast<uint16_t>(raw.size());
         wire::putMsgHdr(frame, mh);
